@@ -966,6 +966,55 @@ fn read_case(t: &mut Tape, ctx: &Ctx, o: &mut Outcome) {
             return;
         }
     }
+    // truncated files, completeness: reading sequentially until nothing more comes must deliver every byte the
+    // truncated member still encodes (reference decoder's partial output); zlib-ng is run alongside and a shortfall
+    // counts only if zlib-ng delivers exactly that partial output
+    if let (Some(_full), true) = (&full_logical, file.len() >= 2) {
+        let partial = crate::refimpl::rgzh::decode_stream(&file, crate::refimpl::rgzh::Wrap::Gzip, 15, &crate::refimpl::rdec::DecOpts::lenient()).out;
+        let h = crate::tape::fnv64(&file);
+        let n = [1usize, 7, 100, 5000][(h as usize >> 8) % 4];
+        let kind = if partial.contains(&0) { h % 3 } else { h % 4 };
+        let op = match kind {
+            0 => ROp::Read(n),
+            1 => ROp::FRead(1, n),
+            2 => ROp::Getc,
+            _ => ROp::Gets(n as c_int + 2),
+        };
+        let per = match op {
+            ROp::Getc => 1,
+            _ => n,
+        };
+        let count = (partial.len() / per + 12).min(12_000);
+        let ops2: Vec<ROp> = (0..count).map(|_| op.clone()).collect();
+        let collect = |r: &Option<(Vec<Res>, c_int)>| -> Option<Vec<u8>> {
+            let (v, _) = r.as_ref()?;
+            let mut seq = Vec::new();
+            for x in v {
+                match op {
+                    ROp::Getc => {
+                        if x.ret >= 0 {
+                            seq.push(x.ret as u8)
+                        }
+                    }
+                    _ => seq.extend_from_slice(&x.data),
+                }
+            }
+            Some(seq)
+        };
+        if partial.len() <= count * per {
+            crate::POISON.store(0xA7, std::sync::atomic::Ordering::Relaxed);
+            let rs2 = run_read::<RsGz>(&path, None, &ops2);
+            crate::POISON.store(0, std::sync::atomic::Ordering::Relaxed);
+            let ng2 = run_read::<NgGz>(&path, None, &ops2);
+            if let (Some(a), Some(b)) = (collect(&rs2), collect(&ng2)) {
+                if a != b && b == partial {
+                    o.fail("read/truncated-file-incomplete", format!("reading a truncated gzip file to exhaustion with {:?} x {} delivers {} bytes; the truncated member encodes {} bytes and zlib-ng delivers all of them; {}", op, count, a.len(), partial.len(), desc));
+                    return;
+                }
+                o.class(if a == partial { "truncated file read to exhaustion: complete" } else { "truncated file read to exhaustion: reference decoder / zlib-ng disagree (not judged)" });
+            }
+        }
+    }
     if logical.is_some() && rs_close != ng_close && ng_close == 0 {
         o.fail("read/gzclose-return", format!("gzclose returned {} (zlib-ng 0); {}", rs_close, desc));
         return;
